@@ -148,4 +148,12 @@ TEXTS = {
                     "references, projections with geometry computed in the harness, iterative results with direct ones within bounds derived from the solver tolerance."),
         level_note=("Trusted: dense linear algebra of the harness (Eigen, long double), S and Lambda as produced by the library (their values are not re-derived), "
                     "rapidcheck. Dense references cap meshes at ~460 apices (projection up to 14^3).")),
+    "C05": dict(
+        engine="rapidcheck",
+        technique="property-based testing (rapidcheck): metamorphic relation 'masked or undefined samples = physically removed samples' over 15 families of operations; target-side predicate on masked targets",
+        design_ref="DESIGN.md §5 C05",
+        level_text=("Exploration: ~22 000 (quick) to 550 000 (thorough) generated data bases with masks; each operation is run on the masked and on the reduced "
+                    "data base and the results are compared (exactly for counts, 1e-10 otherwise, conditioning-gated for solves)."),
+        level_note=("Trusted: the construction of the reduced Db in the harness, rapidcheck. Single-variable undefined values are judged by C01; crash regions of "
+                    "recorded findings are not generated.")),
 }
